@@ -14,7 +14,7 @@ def check(ctx):
     if thorough:
         cfgs.append(dict(Callers="{1, 2, 3}", MaxMsgs=1, CapMsg=1, CapActive=2, CapComplete=2, CapOp=2, TermResponds="TRUE"))
     for c in cfgs:
-        consts = dict(c); consts["Protocol"] = '"fixed"'; consts.setdefault("SerialMod", 2); consts["Identity"] = "TRUE"
+        consts = dict(c); consts["Protocol"] = '"fixed2"'; consts.setdefault("SerialMod", 2); consts["Identity"] = "TRUE"
         ctx.tlc("MC_Conn", constants=consts, workers=14, heap="10g", timeout=3000, name="MC_Conn_%s" % json.dumps(c, sort_keys=True))
     # (I->S) concurrent callers against scripted terminals
     tr = os.path.join(ctx.scratch, "c12_live.ndjson")
